@@ -8,6 +8,7 @@
         selected    => the processor's own transducer is applied to exactly that stream
      plus: one output per input stream, the package is yielded first, the resource stream is drained.
 """
+from contracts.common import fn_named
 from contracts.common import (same_stream, Item, mk_resource, mk_package, mk_package2, selector, dispatch_symbolic, gen_of,
                               expect_no_raise_or_same, tree_writes_under, _b)
 
@@ -201,7 +202,7 @@ def sym_validate(vc):
                 yf = [e for e in evs if e.kind == 'YieldFrom']
                 if mode == 'selected':
                     ok = len(yf) == 1 and getattr(yf[0].src, 'fn', None) is not None and \
-                        yf[0].src.fn.name == 'func' and 'validate_with_schema' in yf[0].src.fn.qualname and \
+                        fn_named(yf[0].src, 'func') and 'validate_with_schema' in yf[0].src.fn.qualname and \
                         any(a is r for a in yf[0].src.args)
                     check(it, 'selected-validated[%s]' % tag, ok)
                 else:
@@ -266,7 +267,7 @@ def sym_set_type(vc):
                         check(it, 'unselected-rows-not-pulled[%s]' % tag, r.stream.drained is False)
                     else:
                         # selected: either no field of this resource matched (passes as is) or the validator wraps it
-                        ok = (y is r) or (isinstance(y, GenObj) and y.fn.name == 'schema_validator')
+                        ok = (y is r) or (isinstance(y, GenObj) and fn_named(y, 'schema_validator'))
                         check(it, 'selected-validated-or-untouched[%s]' % tag, ok)
                     cover(it, 'iter-reachable[%s]' % tag)
                 it.loops['set_type.process_resources#L0'] = LoopSpec(at_start=at_start, at_end=at_end)
